@@ -16,7 +16,7 @@ META["C17"] = {
 }
 
 META["C12"] = {
-    "text": "Differential inductive step: from an arbitrary tree of <=3 scopes (any subset of a name pool bound to symbolic int64 values or modules, maps possibly nil, optional external lookup) one call of each exported Env method is executed symbolically on the real env package and on a 60-line reference chain-of-dictionaries model; result, error-ness and the full observable state of every scope must agree, failures must change nothing and nothing may panic. Copy/DeepCopy independence is checked with a further arbitrary mutation on either side. Added: copies of scopes whose bindings are settable cells (the nil binding, DefineValue of an addressable value) stay independent under a later Set / Define / Delete on either side.",
+    "text": "Differential inductive step: from an arbitrary tree of <=3 scopes (any subset of a name pool bound to symbolic int64 values or modules, maps possibly nil, optional external lookup) one call of each exported Env method is executed symbolically on the real env package and on a 60-line reference chain-of-dictionaries model; result, error-ness and the full observable state of every scope must agree, failures must change nothing and nothing may panic. Copy/DeepCopy independence is checked with a further arbitrary mutation on either side. Added: copies of scopes whose bindings are settable cells (the nil binding, DefineValue of an addressable value) stay independent under a later Set / Define / Delete on either side. Added: requests that cannot be honoured (binding a name to a Value that could not be read back) return an error and leave every scope readable and unchanged.",
     "design_ref": "DESIGN.md §5 C12",
     "note": "One step from an arbitrary well-formed state covers histories of any length within the name pool and depth bound; state shapes, table contents, operation, target and names are enumerated by forking (payloads symbolic). Trusted: go/ssa, symgo semantics incl. its reflect and RWMutex models.",
     "technique": "symbolic execution of go/ssa + SMT (z3), differential step lemma against a reference model, native replay",
@@ -44,28 +44,28 @@ META["C06"] = {
 }
 
 META["C19"] = {
-    "text": "The real closures bound by core.Import/ImportToX are executed symbolically: range against an element-side characterisation of the progression (all int64 triples for 0..3 elements, pooled steps up to 8; running past the end is a violation via an unwinding bound), keys/len/typeOf/kindOf and the toX family against Go's own conversions on symbolic numbers and concrete string pools; the package tables produced by the real init functions are checked entry by entry (each function is the Go function of that name).",
+    "text": "The real closures bound by core.Import/ImportToX are executed symbolically: range against an element-side characterisation of the progression (all int64 triples for 0..3 elements, pooled steps up to 8; running past the end is a violation via an unwinding bound), keys/len/typeOf/kindOf and the toX family against Go's own conversions on symbolic numbers and concrete string pools; the package tables produced by the real init functions are checked entry by entry (each function is the Go function of that name). Added: typeOf / kindOf on defined types over basic kinds (time.Duration, named float / string / bool / uint16 types, containers of them), arrays and struct types behind interfaces; toInt / toFloat on every non-decimal spelling strconv accepts and on numerals at and beyond the range limits.",
     "design_ref": "DESIGN.md §5 C19",
     "note": "Table obligations are closed (no free variable): enumeration, not a solver result. Trusted: go/ssa, symgo semantics and reflect model, z3 + cvc5 (bv-as-int) portfolio.",
     "technique": "symbolic execution of go/ssa + SMT (z3, cvc5), differential against Go conversions, unwinding assertions, native replay",
 }
 
 META["C10"] = {
-    "text": "Differential symbolic execution of the real container code (invokeItemExpr, invokeSliceExpr, invokeLenExpr, invokeIncludeExpr, invokeLetItem*, invokeLetMemberExpr, getMapIndex, runDeleteStmt, append through +, element conversion) against a mirror Go value: symbolic indices and slice bounds of every numeric class decide in-range/out-of-range by the solver; in-range operations must touch exactly the addressed element, failures must leave the container unchanged, slicing must share storage, typed containers and struct fields must keep their declared type. Added: a read yields the value at the time of the read - 18 receiving forms (variable, parameter, literal, defer / go argument, result, swap, operand ...) x 8 containers with symbolic old and new payloads, from source text; `x + y` on overlapping views of one array against Go's append.",
+    "text": "Differential symbolic execution of the real container code (invokeItemExpr, invokeSliceExpr, invokeLenExpr, invokeIncludeExpr, invokeLetItem*, invokeLetMemberExpr, getMapIndex, runDeleteStmt, append through +, element conversion) against a mirror Go value: symbolic indices and slice bounds of every numeric class decide in-range/out-of-range by the solver; in-range operations must touch exactly the addressed element, failures must leave the container unchanged, slicing must share storage, typed containers and struct fields must keep their declared type. Added: a read yields the value at the time of the read - 18 receiving forms (variable, parameter, literal, defer / go argument, result, swap, operand ...) x 8 containers with symbolic old and new payloads, from source text; `x + y` on overlapping views of one array against Go's append. Added (round 7): eight more receiving forms (spread arguments, `x, ok =`, switch subject, in, map-literal key, indexed container, for-in variable) and slots whose values are references (slices, maps, pointers in typed containers and struct fields).",
     "design_ref": "DESIGN.md §5 C10",
     "note": "Container sizes <= 3; index values unbounded (symbolic). Trusted: go/ssa, symgo semantics and reflect model (validated on the repo's scripts in every run), z3.",
     "technique": "symbolic execution of go/ssa + SMT (z3), differential against mirror Go values, native replay",
 }
 
 META["C07"] = {
-    "text": "Every operand of every call form (Go/script callee, fixed/variadic, 0..6 parameters, plain/spread, direct/anonymous/go/defer), literal, operator, index/slice expression, return list and multi-assignment is a logging probe, one of which may fail: symbolic execution of the real call machinery (callExpr, makeCallArgs, anonCallExpr, runDeferStmt, the operator and literal functions) must log every tag at most once, in increasing order, completely on success and exactly up to the failing operand otherwise; && || ?: ?? must evaluate only the operands the result depends on. Added: index operands of 10 assignment-target shapes; calls that are accepted although their argument count does not fit; 6 callee outcomes (incl. a recovered Go panic) x 8 arities x 4 positions: operands and body exactly once.",
+    "text": "Every operand of every call form (Go/script callee, fixed/variadic, 0..6 parameters, plain/spread, direct/anonymous/go/defer), literal, operator, index/slice expression, return list and multi-assignment is a logging probe, one of which may fail: symbolic execution of the real call machinery (callExpr, makeCallArgs, anonCallExpr, runDeferStmt, the operator and literal functions) must log every tag at most once, in increasing order, completely on success and exactly up to the failing operand otherwise; && || ?: ?? must evaluate only the operands the result depends on. Added: index operands of 10 assignment-target shapes; calls that are accepted although their argument count does not fit; 6 callee outcomes (incl. a recovered Go panic) x 8 arities x 4 positions: operands and body exactly once. Added (round 7): operands inside `&` arguments of Go functions (the call writes pointees back).",
     "design_ref": "DESIGN.md §5 C07",
     "note": "Forms are enumerated by forking (no symbolic payload is needed); the deciding step is exhaustive bounded exploration of the real code under the engine's reflect model.",
     "technique": "symbolic execution of go/ssa (bounded exhaustive exploration), probe-trace oracle, native replay",
 }
 
 META["C08"] = {
-    "text": "Differential against a reference control-flow interpreter over abstract programs: the real runStmtsStmt/runIfStmt/runSwitchStmt/loop functions/runTryStmt/function call boundary are executed on every statement skeleton within the bound, with every leaf a probed statement of chosen outcome and every condition a probed call with a chosen truth sequence; probe trace, error status and returned value must equal the reference (first truthy branch, first equal case, body while condition, break/continue consumed by the innermost loop with the post expression after continue, return leaving the invocation). Added: the truth class of the condition value (22 classes with symbolic payloads x 3 provenances) in every condition position; for-in over slices of symbolic elements in index order and over maps in every key order (every entry once, with its value), with the body leaving at visit j by every outcome; leaves inside blocks with a scope of their own re-bind the condition probe, so that a leaked scope shows in the trace.",
+    "text": "Differential against a reference control-flow interpreter over abstract programs: the real runStmtsStmt/runIfStmt/runSwitchStmt/loop functions/runTryStmt/function call boundary are executed on every statement skeleton within the bound, with every leaf a probed statement of chosen outcome and every condition a probed call with a chosen truth sequence; probe trace, error status and returned value must equal the reference (first truthy branch, first equal case, body while condition, break/continue consumed by the innermost loop with the post expression after continue, return leaving the invocation). Added: the truth class of the condition value (22 classes with symbolic payloads x 3 provenances) in every condition position; for-in over slices of symbolic elements in index order and over maps in every key order (every entry once, with its value), with the body leaving at visit j by every outcome; leaves inside blocks with a scope of their own re-bind the condition probe, so that a leaked scope shows in the trace. Added (round 7): entries with NaN keys, entries removed by the body, loop variables as values under stores into the container.",
     "design_ref": "DESIGN.md §5 C08",
     "note": "Skeletons/outcomes/truth values are enumerated by forking. Known finding (recorded, the repo's tests assert it): try/catch catches break/continue/return leaving its try block.",
     "technique": "symbolic execution of go/ssa (bounded exhaustive exploration), differential against a reference interpreter, unwinding assertions, native replay",
@@ -86,7 +86,7 @@ META["C20"] = {
 }
 
 META["C01"] = {
-    "text": "Bounded inductive invariant over every AST node kind (table derived from go/types at check time): the real RunContext/runSingleStmt/invokeExpr/invokeLetExpr/invokeOperator code, executed symbolically with Debug=false on a node whose children are arbitrary outcomes (any value class of the universe through plain or interface-wrapped provenance with symbolic payloads, an error, or a control signal), returns without a panic escaping on the calling goroutine or on one started by `go`, and leaves only well-formed bindings; plus totality of the real ParseSrc on all sources of <= 2|3 symbolic runes. Added: seven families of source-text programs in which a child changes the container its parent is working on (entries deleted from a map while a for-in visits it, in every key order), and assignment targets whose container is an arbitrary value.",
+    "text": "Bounded inductive invariant over every AST node kind (table derived from go/types at check time): the real RunContext/runSingleStmt/invokeExpr/invokeLetExpr/invokeOperator code, executed symbolically with Debug=false on a node whose children are arbitrary outcomes (any value class of the universe through plain or interface-wrapped provenance with symbolic payloads, an error, or a control signal), returns without a panic escaping on the calling goroutine or on one started by `go`, and leaves only well-formed bindings; plus totality of the real ParseSrc on all sources of <= 2|3 symbolic runes. Added: seven families of source-text programs in which a child changes the container its parent is working on (entries deleted from a map while a for-in visits it, in every key order), and assignment targets whose container is an arbitrary value. Added (round 7): loop variables over containers holding nil pointers / nil containers used in 21 ways; 57 operations on nil pointers, nil typed containers, nil errors returned by Go functions, multi-byte strings and huge counts.",
     "design_ref": "DESIGN.md §5 C01",
     "note": "One step from arbitrary well-formed children + closure of the universe covers programs of every depth; value classes, node kinds and list lengths are enumerated by forking, payloads and indices are solver-decided. Trusted: go/ssa, symgo semantics, its reflect model incl. the panics of every reflect entry point (validated on the repo's scripts in every run).",
     "technique": "symbolic execution of go/ssa + SMT (z3), per-node-kind inductive step lemma, native replay",
@@ -100,21 +100,21 @@ META["C14"] = {
 }
 
 META["C04"] = {
-    "text": "S1: in every instance of the per-statement-kind step lemma (arbitrary child outcomes: normal, break, continue, return, error, throw) the interpreter's current scope after runSingleStmt is pointer-identical to the one before. S2-S5: the real parser and interpreter are executed on all block forms x binding forms x exit paths and on closure/recursion/module programs with symbolic bound values; the observable bindings afterwards must equal the reference (assignment updates the nearest binding else defines in the current block, var/loop variables/catch variables/parameters bind locally, block bindings vanish, closures see their defining scope by reference, invocations have fresh scopes, module bindings only through the module). S3 runs invokeLetExpr over scope chains with the binding at an arbitrary level.",
+    "text": "S1: in every instance of the per-statement-kind step lemma (arbitrary child outcomes: normal, break, continue, return, error, throw) the interpreter's current scope after runSingleStmt is pointer-identical to the one before. S2-S5: the real parser and interpreter are executed on all block forms x binding forms x exit paths and on closure/recursion/module programs with symbolic bound values; the observable bindings afterwards must equal the reference (assignment updates the nearest binding else defines in the current block, var/loop variables/catch variables/parameters bind locally, block bindings vanish, closures see their defining scope by reference, invocations have fresh scopes, module bindings only through the module). S3 runs invokeLetExpr over scope chains with the binding at an arbitrary level. Added: var lists with fewer values than names bind every listed name in the current block.",
     "design_ref": "DESIGN.md §5 C04",
     "note": "Program shapes are enumerated by forking; values are symbolic (solver-decided equalities). Trusted as C01.",
     "technique": "symbolic execution of go/ssa + SMT (z3), step lemma + differential against a chain-of-dictionaries reference, native replay",
 }
 
 META["C02"] = {
-    "text": "Cancellation in logical time: the real ExecuteContext runs every spinning/blocking core, alone and under every wrapping construct, with a context that reports done from its c-th poll on (c enumerated) or is cancelled while the interpreter is blocked in the engine's channel/select model; after the first poll that observes the cancellation no probe may be logged, no later statement may run, the call must return the error 'execution interrupted', and exceeding the instruction budget afterwards is a violation.",
+    "text": "Cancellation in logical time: the real ExecuteContext runs every spinning/blocking core, alone and under every wrapping construct, with a context that reports done from its c-th poll on (c enumerated) or is cancelled while the interpreter is blocked in the engine's channel/select model; after the first poll that observes the cancellation no probe may be logged, no later statement may run, the call must return the error 'execution interrupted', and exceeding the instruction budget afterwards is a violation. Added: 15 wrappers that run the core while a statement stores its results or evaluates a subordinate position (the ok / value target of a receive statement, assignment-target indices, delete key, switch case, for-in collection, C-for post, send / throw / make / map-literal operands).",
     "design_ref": "DESIGN.md §5 C02",
     "note": "The wall-clock half ('within a short bounded time') is not applicable: time is replaced by poll and instruction counts. Known finding (recorded): script functions converted to Go func types run under context.Background().",
     "technique": "symbolic execution of go/ssa (bounded exhaustive exploration) with a poll-counting context and channel model, unwinding assertions, native replay",
 }
 
 META["C16"] = {
-    "text": "The interpreter's channel code (make(chan), send/receive expressions with element conversion, the two-value receive statement, for-in over a channel, close with panic capture, go with argument evaluation) is executed on the engine's model of Go's channel semantics: FIFO and conversion with symbolic values, closed/drained behaviour, errors instead of crashes for send-on-closed and double close; producer -> [relay ->] consumer pipelines are explored under every schedule at channel-operation granularity within a context-switch bound and must deliver every item once, in order, and terminate. Added: receivers already blocked when the producer sends or closes (4 receive forms x capacities 0/1/4), every go call shape followed by other calls before the goroutine's value is read (argument storage must not be reused).",
+    "text": "The interpreter's channel code (make(chan), send/receive expressions with element conversion, the two-value receive statement, for-in over a channel, close with panic capture, go with argument evaluation) is executed on the engine's model of Go's channel semantics: FIFO and conversion with symbolic values, closed/drained behaviour, errors instead of crashes for send-on-closed and double close; producer -> [relay ->] consumer pipelines are explored under every schedule at channel-operation granularity within a context-switch bound and must deliver every item once, in order, and terminate. Added: receivers already blocked when the producer sends or closes (4 receive forms x capacities 0/1/4), every go call shape followed by other calls before the goroutine's value is read (argument storage must not be reused). Added: fan-in - two producers into one buffered channel under schedule exploration (TrySend / TryRecv are schedule points), every value received exactly once; native replay by a stress run.",
     "design_ref": "DESIGN.md §5 C16",
     "note": "'All schedules the runtime produces with varying GOMAXPROCS' is not applicable (runtime not encoded); schedules are explored on the channel model. Payload equalities are solver-decided; schedules are enumerated by forking.",
     "technique": "symbolic execution of go/ssa with a channel/goroutine model, bounded schedule exploration, unwinding assertions, native replay",
@@ -135,7 +135,7 @@ META["C03"] = {
 }
 
 META["C11"] = {
-    "text": "Conversion lemma: the real convertReflectValueToType on symbolic int64/float64 sources (plain and interface-wrapped) for every numeric target type must give exactly the target type and Go's own conversion of the payload (solver-decided), and on a table of non-numeric pairs must convert exactly when Go does (element-wise for slices and maps, zero value for nil). Call lemma: host functions recording their arguments are called through the real call machinery in fixed/variadic x plain/spread shapes and must receive exactly the supplied arguments converted as above, and all results come back. Identity, member and method access on Go values, and script functions converted to Go func types (arguments in, result converted out, error surfacing) are checked on a pool of Go types. Added: array parameter types, pointer- and value-receiver methods on pointers to named slices / integers, named maps and through embedded structs, variadic script functions as callbacks.",
+    "text": "Conversion lemma: the real convertReflectValueToType on symbolic int64/float64 sources (plain and interface-wrapped) for every numeric target type must give exactly the target type and Go's own conversion of the payload (solver-decided), and on a table of non-numeric pairs must convert exactly when Go does (element-wise for slices and maps, zero value for nil). Call lemma: host functions recording their arguments are called through the real call machinery in fixed/variadic x plain/spread shapes and must receive exactly the supplied arguments converted as above, and all results come back. Identity, member and method access on Go values, and script functions converted to Go func types (arguments in, result converted out, error surfacing) are checked on a pool of Go types. Added: array parameter types, pointer- and value-receiver methods on pointers to named slices / integers, named maps and through embedded structs, variadic script functions as callbacks. Added (round 7): unexported fields and fields promoted through nil embedded pointers are errors; variadic Go func types with variadic / fixed script callbacks; empty containers convert to empty, not nil.",
     "design_ref": "DESIGN.md §5 C11",
     "note": "The 'all Go signatures' quantifier is bounded to the pool; payloads are symbolic. Trusted: go/ssa, symgo reflect model (Convert, Call, MakeFunc, method sets).",
     "technique": "symbolic execution of go/ssa + SMT (z3), differential against Go's own conversions, native replay",
